@@ -1198,21 +1198,40 @@ func (h *harness) genPipeline() []hx.DirectViolation {
 		}
 		p.Finish(seq)
 		before := append([]string{}, recent...)
-		inject(b)
 		var k vaxis.Key
 		got := false
-		deadline := time.After(2 * time.Second)
-	wait:
-		for {
-			select {
-			case ev := <-vx.Events():
-				if kk, ok := ev.(vaxis.Key); ok {
-					k, got = kk, true
+		for attempt := 0; ; attempt++ {
+			inject(b)
+			got = false
+			deadline := time.After(2 * time.Second)
+		wait:
+			for {
+				select {
+				case ev := <-vx.Events():
+					if kk, ok := ev.(vaxis.Key); ok {
+						k, got = kk, true
+						break wait
+					}
+				case <-deadline:
 					break wait
 				}
-			case <-deadline:
-				break wait
 			}
+			// an Escape key for bytes that continue after ESC: Vaxis' parser goroutine was not
+			// scheduled for 10 ms between two bytes of one write and its Escape timer fired (see
+			// hx.IsTimerEsc).  Let the rest arrive, drop it and send the bytes again; a decoder
+			// that answers Escape on every attempt is still reported
+			if got && k.Keycode == vaxis.KeyEsc && len(b) > 1 && b[0] == 0x1b && attempt < 2 { // (legitimate encodings of Escape pay two re-sends)
+				time.Sleep(30 * time.Millisecond)
+				for drained := false; !drained; {
+					select {
+					case <-vx.Events():
+					default:
+						drained = true
+					}
+				}
+				continue
+			}
+			break
 		}
 		if !got {
 			direct = append(direct, hx.DirectViolation{Class: "pipeline-no-key-event", Case: map[string]interface{}{"bytes": fmt.Sprintf("%q", b), "sequence": sj,
